@@ -206,3 +206,12 @@ From RL Require Export Model.Encode.
 Definition ch_enc (v : message) (p : list N) : string := show_outcome show_bytes_ok (m_encode v p).
 Definition ch_enca (a : avp) (p : list N) : string :=
   show_outcome show_bytes_ok (m_enc_avp a p) ++ " glen=" ++ dec (m_get_length a).
+
+(** the hiding channels (MD5 from Base/Md5.v) *)
+From RL Require Export Base.Md5 Model.Hide.
+Definition ch_hide (a : avp) (s rv lp ap : list N) : string :=
+  show_outcome (fun x => String.append "Ok " (show_avp x)) (m_hide md5 a s rv lp ap).
+Definition ch_reveal (a : avp) (s rv : list N) : string :=
+  show_outcome (fun r => match r with Ok x => String.append "Ok " (show_avp x) | Err e => String.append "Err " (show_err e) end)
+               (m_reveal md5 a s rv).
+Definition ch_md5 (b : list N) : string := hex (md5 b).
